@@ -148,8 +148,10 @@ def pydoc(text: str, indent: str) -> str:
     return f'{indent}"""{body[len(indent):]}{indent}"""\n'
 
 
-def build_module(rng, tok: Tok, gated: set, common_only: bool, n_elems: int):
-    """Returns (source renderer by style, ground truth by element path)."""
+def build_module(rng, tok: Tok, gated: set, common_only: bool, n_elems: int, name_tag: str | None = None):
+    """Returns (source renderer by style, ground truth by element path).  ``name_tag`` replaces the module's own tag in
+    the element names (two modules built with one tag share element names, never documentation tokens)."""
+    tag = name_tag or tok.prefix
     elems = []  # (kind, name, model, extra)
     gt = {}
 
@@ -179,9 +181,9 @@ def build_module(rng, tok: Tok, gated: set, common_only: bool, n_elems: int):
         kind = rng.choice(["func", "func", "class", "class"])
         if kind == "func":
             params = [f"p{j}" for j in range(rng.randint(0, 3))]
-            elems.append(("func", f"fn{tok.prefix}x{i}", model("func", params, True), {"params": params}))
+            elems.append(("func", f"fn{tag}x{i}", model("func", params, True), {"params": params}))
         else:
-            cname = f"Kl{tok.prefix}x{i}"
+            cname = f"Kl{tag}x{i}"
             cparams = [f"c{j}" for j in range(rng.randint(0, 2))]
             attrs = [f"at{j}" for j in range(rng.randint(0, 2))]
             doc_on_init = rng.random() < 0.3 and not common_only
@@ -295,8 +297,11 @@ def gen(tier: str, seed: int) -> list[Case]:
             gts[f"pk.docs{mi}"] = gt
         scn_render, scn_gt = scenario_module(rng, Tok(f"{i}m9"))
         gts["pk.docs_scn"] = scn_gt
+        # a module named like the package next to a package __init__ with declarations of the same names
+        init_render, gts["pk"] = build_module(rng, Tok(f"{i}m7"), gated, common, 5, name_tag=f"sh{i}")
+        twin_render, gts["pk.pk"] = build_module(rng, Tok(f"{i}m8"), gated, common, 5, name_tag=f"sh{i}")
         for style in STYLES:
-            files = {"src/pk/__init__.py": ""}
+            files = {"src/pk/__init__.py": init_render(style), "src/pk/pk.py": twin_render(style)}
             for mi, r in enumerate(renders):
                 files[f"src/pk/docs{mi}.py"] = r(style)
             files["src/pk/docs_scn.py"] = scn_render(style)
